@@ -38,11 +38,27 @@ def run(db, rep, feat, tier):
     before = len(rep.rules)
     c11.r4(db, rep)
     c11.r5_r6(db, rep)
+    c11.r7(db, rep)
     for rr in rep.rules[before:]:
         rr.id = "R5." + rr.id
+        rr.floors = []
         for i in rr.instances:
             i["key"] = "R5." + i["key"]
             i["rule"] = rr.id
+    # renaming rewrites scalars through Expression::scalars_mut: that traversal must visit every operand (C04.R1)
+    import props.c04 as c04
+    from armlib import variants_of
+    variants = variants_of(db, c04.EXPR)
+    vinfo = {last_seg(v): info for v, info in variants}
+    before = len(rep.rules)
+    c04.r1(db, rep, variants, vinfo)
+    for rr in rep.rules[before:]:
+        rr.id = "R7." + rr.id
+        rr.floors = []
+        for i in rr.instances:
+            i["key"] = "R7." + i["key"]
+            i["rule"] = rr.id
+    r4b(db, rep)
     r6 = rep.rule("R6", "K8", "no undischarged panic site reachable from ssa_transformation inside the transformation module")
     panics.reach_rule(db, rep, r6, [MOD + "::ssa_transformation"], scope_prefixes=(MOD, "<il::"), site_allow=SITE_ALLOW,
                       extra_discharge=discharge)
@@ -79,6 +95,47 @@ def r1(db, rep):
             r.decide(ok, "non_locals|read_before_kill", db.where(body, body["blocks"][wr[0]]["t"]["l"]),
                      "an instruction's writes are added to the kill set before its own reads are classified")
     rep.anchor(found, "closure handling one instruction in compute_non_local_scalars")
+
+
+def r4b(db, rep):
+    from mirterm import terms_of, subterms
+    r = rep.rule("R4b", "K6", "insert_phi_nodes walks the whole dominance frontier of every defining block: a frontier block is skipped "
+                 "only when it already holds a phi node for this scalar (the single test phi_insertions.contains); in particular a "
+                 "block that is in its own frontier (a loop consisting of that block) receives its phi node")
+    fn = MOD + "::insert_phi_nodes"
+    body = db.mir.get(fn)
+    rep.anchor(body is not None, fn)
+    cfg = Cfg(body)
+    tm = terms_of(db, fn, {})
+    adds = [i for i, t in mir_calls(body) if last_seg(mir_callee(t) or "") == "add_phi_node"]
+    contains = [i for i, t in mir_calls(body) if last_seg(mir_callee(t) or "") == "contains" and "HashSet" in (mir_callee(t) or "")]
+    nexts = [i for i, t in mir_calls(body) if (mir_callee(t) or "").endswith("Iterator>::next") and
+             any(isinstance(x, tuple) and x and x[0] == "call" and "ops::Index" in str(x[1]) for x in subterms(tm.operand(t["args"][0])))]
+    rep.anchor(len(adds) == 1 and contains and len(nexts) >= 1, "frontier loop: next, contains, add_phi_node")
+    # the frontier iterator is the `next` that dominates add_phi_node and is closest to it
+    guard = [c for c in contains if cfg.dominates(c, adds[0])]
+    rep.anchor(bool(guard), "the `already has a phi` test before add_phi_node")
+    cands = [n for n in nexts if cfg.dominates(n, guard[-1])]
+    rep.anchor(bool(cands), "iterator over dominance_frontiers[&block]")
+    # innermost loop head that still dominates the test
+    nx = [n for n in cands if all(cfg.dominates(m, n) for m in cands)][0]
+    in_loop = [c for c in guard if cfg.dominates(nx, c)]
+    # follow the Some(..) side of the iterator result only (the None side leaves the loop and may come back through the work list)
+    start = None
+    b = cfg.succ[nx][0] if cfg.succ[nx] else None
+    for _ in range(4):
+        if b is None:
+            break
+        t = body["blocks"][b]["t"]
+        if t["k"] == "SwitchInt":
+            some = [tg for v_, tg in t["targets"] if v_ == 1]
+            start = some[0] if some else t["otherwise"]
+            break
+        b = cfg.succ[b][0] if cfg.succ[b] else None
+    rep.anchor(start is not None, "Some-side of the frontier iterator")
+    reach = cfg.reachable(start, avoid=adds + in_loop)
+    r.decide(bool(in_loop) and nx not in reach, "phi|frontier_complete", db.where(body, body["blocks"][nx]["t"].get("l")),
+             "a member of the dominance frontier can be skipped by a test other than `already has a phi`")
 
 
 def r2c(db, rep, rid="R2c"):
